@@ -474,6 +474,64 @@ func placeExec(c *Ctx, op string) {
 			}
 			c.H("op:bb")
 			checkShelf("after repeated placements at one destination")
+		case "nn":
+			// a read-only placement whose destination lies inside another read-only placement (a ware placed into a directory
+			// of a ware): nothing can be written through the inner one either, and the shelf stays what it is
+			if shelfRef == "" {
+				tartrans.Unpack(ctx, id, "-", uf, rio.Placement_None, wh, rio.Monitor{})
+				checkShelf("init")
+			}
+			if packPath != src {
+				continue
+			}
+			subdir := ""
+			for _, e := range want {
+				if e.Kind == 'd' && e.Name != "" && !strings.Contains(e.Name, "/") {
+					subdir = e.Name
+					break
+				}
+			}
+			if subdir == "" {
+				continue
+			}
+			d := newDst("absent")
+			jOuter, e := placer.BindPlacer(fs.MustAbsolutePath(shelf), fs.MustAbsolutePath(d), false)
+			if e != nil {
+				continue
+			}
+			inner := filepath.Join(d, subdir)
+			jInner, e := placer.BindPlacer(fs.MustAbsolutePath(shelf), fs.MustAbsolutePath(inner), false)
+			if e == nil {
+				wrote := os.WriteFile(filepath.Join(inner, "written-through-inner"), []byte("w"), 0644) == nil
+				chm := syscall.Chmod(inner, 0700) == nil
+				if sn, e2 := Snapshot(inner); e2 == nil {
+					for _, en := range sn {
+						if en.Kind == 'f' {
+							if fh, e3 := os.OpenFile(filepath.Join(inner, en.Name), os.O_WRONLY|os.O_APPEND, 0); e3 == nil {
+								fh.Write([]byte("APPENDED"))
+								fh.Close()
+								wrote = true
+							}
+							break
+						}
+					}
+				}
+				if wrote || chm {
+					c.PropFail("shelf-changed", fmt.Sprintf("a read-only placement at a destination inside another read-only placement let a write (%v) / chmod (%v) through", wrote, chm), op)
+				}
+				checkShelf("after write attempts through a nested read-only placement")
+				jInner.Teardown()
+				os.Remove(filepath.Join(shelf, "written-through-inner"))
+			}
+			jOuter.Teardown()
+			for _, m := range []string{inner, d} {
+				for mounted(m) {
+					if syscall.Unmount(m, 0) != nil {
+						break
+					}
+				}
+			}
+			c.H("op:nn")
 		case "w":
 			var i int
 			fmt.Sscan(x[1], &i)
@@ -860,7 +918,7 @@ func placeEngine(c *Ctx) {
 		}
 		// fixed prefix: the route x pre-state combinations that matter most, then the writable-mount life cycle
 		ops = append(ops, "u:copy:foreign", "u:copy:junk", "u:direct:absent", "u:none:absent")
-		ops = append(ops, "pp", "bb")
+		ops = append(ops, "pp", "bb", "nn")
 		if k%5 != 4 {
 			ops = append(ops, "u:mount:junk", "u:mount:symlink", "u:copy:symlink")
 		}
